@@ -296,11 +296,12 @@ def case_spectrum_frequency(ctx, nf, method):
     C.shim_modules(ctx)
     f, e, mom, s, t = _spec1d(ctx, nf, 1)
     x = ctx.reals("x", 1)
-    r = ctx.noraise("D-SP.raise", s.interpolate_frequency, x, 0.0, method)
+    fill = ctx.frac(7, 2)        # a non-default extrapolation value, forwarded through the wrapper in every mode
+    r = ctx.noraise("D-SP.raise", s.interpolate_frequency, x, fill, method)
     ge = np.asarray(r.variance_density.values)
     k = _bracket(ctx, f, x[0])
     if k is None:
-        ctx.check(ctx.eq(ge[0, 0], 0), "D-SP.extrapolation")
+        ctx.check(ctx.eq(ge[0, 0], fill), "D-SP.extrapolation", info="outside the grid: the caller's extrapolation value")
         return
     tt = (x[0] - f[k]) / (f[k + 1] - f[k])
     if method == "linear":
